@@ -94,6 +94,17 @@ CLAIMS.update({
           'depth <= 2; at most 36 steering vectors per program.'),
 })
 
+CLAIMS.update({
+ 'C20': dict(engine='EFT', technique=TECH_M, text=(
+     'The real ASTs of fpy2.libraries.eft (ideal/fast/classic/priest 2sum, ideal/fast/classic 2mul, veltkamp_split, ideal_fma, '
+     'classic_2fma) and core.ldexp, and the Python primitives split/modf/frexp (specified in the machine from their docstrings), are '
+     'run by TLC on the abstract machine for every operand pair (triples on 2-bit operands) of small floating-point formats under '
+     'the contexts each docstring allows; spec/EFT.tla checks the exact-recombination law on the machine result and compares it with '
+     'what the real library returned.'),
+     note='Formats p <= 4 (5 thorough), 3-5 binades, specials; preconditions are arranged by the harness (nearest rounding where '
+          'required) or enforced by the function\'s own assert.'),
+})
+
 ENGINES = [
  ('Num', 'spec/Num.tla', ['C01', 'C02', 'C05', 'C16', 'C17'], 'exact rational / special-value numbers'),
  ('Rounding', 'spec/Rounding.tla', ['C01', 'C02', 'C16', 'C17'], 'context families, core formats, rounding function, expectations'),
@@ -105,6 +116,7 @@ ENGINES = [
  ('Stochastic', 'spec/Stochastic.tla', ['C17'], 'stochastic rounding count law'),
  ('FPyMachine', 'spec/FPyMachine.tla', ['C04', 'C07', 'C08', 'C09'], 'small-step abstract machine for FPy programs (real ASTs as data)'),
  ('MCMachine', 'spec/MCMachine.tla', ['C04'], 'machine runs judged against recorded interpreter outcomes; machine invariants'),
+ ('EFT', 'spec/EFT.tla', ['C20'], 'laws of the error-free transformations on machine runs'),
  ('Scoping', 'spec/Scoping.tla', ['C15'], 'scoping rules and path machine'),
  ('Equiv', 'spec/Equiv.tla', ['C07', 'C08', 'C09'], 'two-phase machine: original vs transformed program'),
 ]
